@@ -540,3 +540,942 @@ Proof.
       destruct (update_edge gc j sj) as [g1|] eqn:Hu; [|eauto].
       apply IH; auto. apply update_edge_length in Hu. congruence.
 Qed.
+
+Theorem C11_rejects_output_claimed_twice_proof : forall g f stmts i1 i2 st1 st2 o,
+  i1 <> i2 -> find_stmt g stmts i1 = Some st1 -> find_stmt g stmts i2 = Some st2 ->
+  In o (dd_imp_outs st1) -> In o (dd_imp_outs st2) ->
+  exists e, load_dyndep g f stmts = Err e.
+Proof.
+  intros g f stmts i1 i2 st1 st2 o Hne Hf1 Hf2 Ho1 Ho2. unfold load_dyndep.
+  destruct (check_stmts g [] stmts); [eauto|].
+  destruct (load_edges g f stmts (out_edges g f) g) as [g1|] eqn:Hl; [|eauto].
+  destruct (forallb _ stmts) eqn:Hu; [|eauto]. exfalso.
+  rewrite forallb_forall in Hu.
+  assert (Huse : forall i st, find_stmt g stmts i = Some st ->
+                              In i (out_edges g f) /\ bound_to g f i = true).
+  { intros i st Hf. destruct (find_stmt_some _ _ _ _ Hf) as [Hin Hk].
+    specialize (Hu st Hin). split; [|eapply stmt_used_bound; eauto].
+    unfold stmt_used in Hu. rewrite Hk in Hu. apply andb_true_iff in Hu.
+    apply existsb_eqb_in. tauto. }
+  destruct (Huse _ _ Hf1) as [Hi1 Hb1]. destruct (Huse _ _ Hf2) as [Hi2 Hb2].
+  destruct (load_edges_twice g f stmts i1 i2 st1 st2 o (out_edges g f) g eq_refl Hne Hi1 Hi2 Hb1 Hb2 Hf1 Hf2 Ho1 Ho2) as [e He].
+  congruence.
+Qed.
+
+(* ---------- the metamorphic statement WITHOUT its two hypotheses is false of the real code ---------- *)
+Definition C11_load_is_inline_full : Prop :=
+  forall g f stmts g', load_dyndep g f stmts = Ok g' -> g' = inline_dyndep g stmts.
+
+(* names: "out"=[111;117;116] "in"=[105;110] "dd"=[100;100] "other"=[111;116;104;101;114] "x"=[120] *)
+Definition w_out : node := [111; 117; 116].
+Definition w_in : node := [105; 110].
+Definition w_dd : node := [100; 100].
+Definition w_other : node := [111; 116; 104; 101; 114].
+Definition w_x : node := [120].
+
+(* witness 1 (restat leak): "rule r {dyndep = dd}; build out: r in | dd; build other: t" -- the bound
+   edge has no scope of its own, "restat = 1" of the dyndep file lands in the file-level scope and
+   the unrelated edge "other" becomes a restat edge. *)
+Definition w_leak_graph : graph :=
+  mkGraph [mkEdge [w_out] 0 [w_in; w_dd] 1 0 (Some w_dd) NoScope None;
+           mkEdge [w_other] 0 [] 0 0 None NoScope None] None.
+Definition w_leak_stmts : list dd_stmt := [mkStmt w_out [] [] true].
+
+Lemma C11_load_is_inline_refuted_restat_leak :
+  exists g f stmts g', load_dyndep g f stmts = Ok g' /\ g' <> inline_dyndep g stmts /\
+    (* observable: the restat flag of the edge the file does not mention *)
+    exists e e', nth_error (g_edges g') 1 = Some e' /\ nth_error (g_edges (inline_dyndep g stmts)) 1 = Some e /\
+                 edge_restat g' e' = true /\ edge_restat (inline_dyndep g stmts) e = false.
+Proof.
+  exists w_leak_graph, w_dd, w_leak_stmts.
+  eexists. split; [vm_compute; reflexivity|]. split; [vm_compute; discriminate|].
+  do 2 eexists. repeat split; vm_compute; reflexivity.
+Qed.
+
+(* witness 2: the dyndep file listed twice among the inputs "build out: r dd dd": out_edges holds the
+   edge twice, UpdateEdge runs twice, the implicit input is spliced in twice *)
+Definition w_twice_graph : graph :=
+  mkGraph [mkEdge [w_out] 0 [w_dd; w_dd] 0 0 (Some w_dd) (Scope None) None] None.
+Definition w_twice_stmts : list dd_stmt := [mkStmt w_out [] [w_x] false].
+
+Lemma C11_load_is_inline_refuted_listed_twice :
+  exists g f stmts g', load_dyndep g f stmts = Ok g' /\ g' <> inline_dyndep g stmts.
+Proof.
+  exists w_twice_graph, w_dd, w_twice_stmts.
+  eexists. split; [vm_compute; reflexivity|]. vm_compute; discriminate.
+Qed.
+
+(* ... and with an implicit OUTPUT the second run meets the producer set by the first: a file that
+   is valid for the graph is rejected *)
+Lemma C11_listed_twice_rejects_valid_file :
+  load_dyndep w_twice_graph w_dd [mkStmt w_out [w_x] [] false] = Err E_multiple_rules.
+Proof. vm_compute. reflexivity. Qed.
+
+Theorem C11_load_is_inline_full_refuted : ~ C11_load_is_inline_full.
+Proof.
+  intros H. destruct C11_load_is_inline_refuted_listed_twice as [g [f [stmts [g' [Hl Hne]]]]].
+  exact (Hne (H g f stmts g' Hl)).
+Qed.
+
+(* ========================================================================================== *)
+(** * Part 2: the lexer never looks past the NUL sentinel, the parser loops never run out of
+      fuel (C13), and every accepted file ends with a newline (C11 truncation) *)
+
+Definition nonul (c : bytes) : Prop := ~ In 0 c.
+Definition okerr (e : dd_err) : Prop := e <> E_overrun /\ e <> E_fuel.
+
+(* [s = c ++ r]: the scanner consumed [c] (no NUL in it) and [P c] *)
+Definition advP (P : bytes -> Prop) (s r : bytes) : Prop := exists c, s = c ++ r /\ nonul c /\ P c.
+Definition p_any (c : bytes) : Prop := True.
+Definition p_ne (c : bytes) : Prop := c <> [].
+Definition p_nl (c : bytes) : Prop := exists c', c = c' ++ [10].
+Definition p_bol (c : bytes) : Prop := c = [] \/ p_nl c.
+
+Lemma nonul_app a b : nonul a -> nonul b -> nonul (a ++ b).
+Proof. unfold nonul. intros Ha Hb H. apply in_app_or in H. tauto. Qed.
+
+Lemma advP_comp (P Q R : bytes -> Prop) s m r :
+  advP P s m -> advP Q m r -> (forall a b, P a -> Q b -> R (a ++ b)) -> advP R s r.
+Proof.
+  intros [a [-> [Ha HP]]] [b [-> [Hb HQ]]] H. exists (a ++ b).
+  split; [now rewrite app_assoc|]. split; [now apply nonul_app|auto].
+Qed.
+
+Lemma advP_weaken (P Q : bytes -> Prop) s r : advP P s r -> (forall c, P c -> Q c) -> advP Q s r.
+Proof. intros [c [-> [Hc HP]]] H. exists c; auto. Qed.
+
+Lemma advP_refl (P : bytes -> Prop) s : P [] -> advP P s s.
+Proof. intros H. exists []. split; [reflexivity|]. split; [intros []|exact H]. Qed.
+
+Lemma advP_nul P s r : advP P s r -> In 0 s -> In 0 r.
+Proof. intros [c [-> [Hc _]]] H. apply in_app_or in H. destruct H; [contradiction|assumption]. Qed.
+
+Lemma advP_len P s r : advP P s r -> (length r <= length s)%nat.
+Proof. intros [c [-> _]]. rewrite app_length. lia. Qed.
+
+Lemma advP_len_ne s r : advP p_ne s r -> (length r < length s)%nat.
+Proof. intros [c [-> [_ Hne]]]. rewrite app_length. destruct c; [congruence|cbn [length]; lia]. Qed.
+
+Lemma p_nl_ne c : p_nl c -> p_ne c.
+Proof. intros [c' ->] H. destruct c'; discriminate. Qed.
+Lemma p_nl_app_r a b : p_nl b -> p_nl (a ++ b).
+Proof. intros [c' ->]. exists (a ++ c'). now rewrite app_assoc. Qed.
+Lemma p_ne_app_l a b : p_ne a -> p_ne (a ++ b).
+Proof. unfold p_ne. intros H E. apply app_eq_nil in E. tauto. Qed.
+Lemma p_ne_app_r a b : p_ne b -> p_ne (a ++ b).
+Proof. unfold p_ne. intros H E. apply app_eq_nil in E. tauto. Qed.
+Lemma p_nl_bol a b : p_nl a -> p_bol b -> p_nl (a ++ b).
+Proof. intros Ha [->|Hb]; [now rewrite app_nil_r|now apply p_nl_app_r]. Qed.
+Lemma p_bol_bol a b : p_bol a -> p_bol b -> p_bol (a ++ b).
+Proof.
+  intros [->|Ha] Hb; [exact Hb|]. right. now apply p_nl_bol.
+Qed.
+
+Lemma in_nul_tail (c : byte) s : In 0 (c :: s) -> c <> 0 -> In 0 s.
+Proof. intros [H|H] Hc; [congruence|exact H]. Qed.
+
+Lemma nonul_cons (c : byte) s : c <> 0 -> nonul s -> nonul (c :: s).
+Proof. intros Hc Hs [H|H]; [congruence|contradiction]. Qed.
+Lemma nonul_nil : nonul [].
+Proof. intros []. Qed.
+
+(* ---------- EatWhitespace ---------- *)
+Lemma eat_ws_spec : forall s, In 0 s -> exists r, eat_ws s = Ok r /\ advP p_any s r.
+Proof.
+  intros s. induction s as [s IH] using (induction_ltof1 _ (@length byte)). unfold ltof in IH.
+  intros Hn. destruct s as [|c s1]; [destruct Hn|]. cbn [eat_ws].
+  destruct (N.eqb_spec c 32) as [->|H32].
+  { destruct (IH s1) as [r [He Ha]]; [cbn [length]; lia|apply (in_nul_tail 32); [exact Hn|discriminate]|].
+    exists r. split; [exact He|]. destruct Ha as [c0 [-> [Hc _]]]. exists (32 :: c0).
+    split; [reflexivity|]. split; [apply nonul_cons; [discriminate|exact Hc]|exact I]. }
+  destruct (N.eqb_spec c 36) as [->|H36]; [|exists (c :: s1); split; [reflexivity|apply advP_refl; exact I]].
+  assert (Hn1 : In 0 s1) by (apply (in_nul_tail 36); [exact Hn|discriminate]).
+  destruct s1 as [|d s2]; [destruct Hn1|].
+  destruct (N.eqb_spec d 10) as [->|H10].
+  { destruct (IH s2) as [r [He Ha]]; [cbn [length]; lia|apply (in_nul_tail 10); [exact Hn1|discriminate]|].
+    exists r. split; [exact He|]. destruct Ha as [c0 [-> [Hc _]]]. exists (36 :: 10 :: c0).
+    split; [reflexivity|]. split; [repeat apply nonul_cons; try discriminate; exact Hc|exact I]. }
+  destruct (N.eqb_spec d 13) as [->|H13]; [|eexists; split; [reflexivity|apply advP_refl; exact I]].
+  assert (Hn2 : In 0 s2) by (apply (in_nul_tail 13); [exact Hn1|discriminate]).
+  destruct s2 as [|e s3]; [destruct Hn2|].
+  destruct (N.eqb_spec e 10) as [->|He10]; [|eexists; split; [reflexivity|apply advP_refl; exact I]].
+  destruct (IH s3) as [r [He Ha]]; [cbn [length]; lia|apply (in_nul_tail 10); [exact Hn2|discriminate]|].
+  exists r. split; [exact He|]. destruct Ha as [c0 [-> [Hc _]]]. exists (36 :: 13 :: 10 :: c0).
+  split; [reflexivity|]. split; [repeat apply nonul_cons; try discriminate; exact Hc|exact I].
+Qed.
+
+(* ---------- span_varname ---------- *)
+Lemma varname_char_not_nul c : is_varname_char c = true -> c <> 0.
+Proof. intros H ->. vm_compute in H. discriminate. Qed.
+Lemma simple_varname_char_not_nul c : is_simple_varname_char c = true -> c <> 0.
+Proof. intros H ->. vm_compute in H. discriminate. Qed.
+
+Lemma span_varname_spec : forall s, In 0 s ->
+  exists w r, span_varname s = Ok (w, r) /\ s = w ++ r /\ nonul w /\ In 0 r.
+Proof.
+  induction s as [|c s IH]; intros Hn; [destruct Hn|]. cbn [span_varname].
+  destruct (is_varname_char c) eqn:Hv.
+  - pose proof (varname_char_not_nul c Hv) as Hc.
+    destruct (IH (in_nul_tail c s Hn Hc)) as [w [r [He [-> [Hw Hr]]]]]. rewrite He.
+    exists (c :: w), r. repeat split; auto. now apply nonul_cons.
+  - exists [], (c :: s). repeat split; auto. apply nonul_nil.
+Qed.
+
+(* ---------- ReadToken ---------- *)
+Lemma keyword_or_ident_cases w :
+  keyword_or_ident w <> T_TEOF /\ keyword_or_ident w <> T_NEWLINE /\ keyword_or_ident w <> T_ERROR /\
+  keyword_or_ident w <> T_INDENT /\ keyword_or_ident w <> T_PIPE /\ keyword_or_ident w <> T_PIPE2 /\
+  keyword_or_ident w <> T_COLON /\ keyword_or_ident w <> T_EQUALS /\ keyword_or_ident w <> T_PIPEAT.
+Proof.
+  unfold keyword_or_ident.
+  destruct (bytes_eqb w s_build); [repeat split; discriminate|].
+  destruct (bytes_eqb w s_pool); [repeat split; discriminate|].
+  destruct (bytes_eqb w s_rule); [repeat split; discriminate|].
+  destruct (bytes_eqb w s_default); [repeat split; discriminate|].
+  destruct (bytes_eqb w s_include); [repeat split; discriminate|].
+  destruct (bytes_eqb w s_subninja); repeat split; discriminate.
+Qed.
+
+Lemma advP_cons1 (c : byte) s : c <> 0 -> advP p_ne (c :: s) s.
+Proof.
+  intros Hc. exists [c]. split; [reflexivity|]. split; [apply nonul_cons; [exact Hc|apply nonul_nil]|discriminate].
+Qed.
+
+Lemma scan_plain_spec c s' : In 0 (c :: s') ->
+  exists t r, scan_plain c s' = Ok (t, r) /\
+    (t = T_TEOF -> c = 0 /\ r = s') /\ t <> T_NEWLINE /\
+    (t <> T_TEOF -> advP p_ne (c :: s') r /\ In 0 r).
+Proof.
+  intros Hn. unfold scan_plain.
+  destruct (is_varname_char c) eqn:Hv.
+  { pose proof (varname_char_not_nul c Hv) as Hc.
+    destruct (span_varname_spec s' (in_nul_tail c s' Hn Hc)) as [w [r [He [-> [Hw Hr]]]]].
+    rewrite He. exists (keyword_or_ident (c :: w)), r.
+    destruct (keyword_or_ident_cases (c :: w)) as [H1 [H2 _]].
+    split; [reflexivity|]. split; [intros; contradiction|]. split; [exact H2|]. intros _. split; [|exact Hr].
+    exists (c :: w). split; [reflexivity|]. split; [now apply nonul_cons|discriminate]. }
+  destruct (N.eqb_spec c 61) as [->|H61].
+  { exists T_EQUALS, s'. split; [reflexivity|]. split; [discriminate|]. split; [discriminate|].
+    intros _. split; [apply advP_cons1; discriminate|apply (in_nul_tail 61); [exact Hn|discriminate]]. }
+  destruct (N.eqb_spec c 58) as [->|H58].
+  { exists T_COLON, s'. split; [reflexivity|]. split; [discriminate|]. split; [discriminate|].
+    intros _. split; [apply advP_cons1; discriminate|apply (in_nul_tail 58); [exact Hn|discriminate]]. }
+  destruct (N.eqb_spec c 124) as [->|H124].
+  { assert (Hn1 : In 0 s') by (apply (in_nul_tail 124); [exact Hn|discriminate]).
+    destruct s' as [|d s'']; [destruct Hn1|].
+    destruct (N.eqb_spec d 64) as [->|H64].
+    { exists T_PIPEAT, s''. split; [reflexivity|]. split; [discriminate|]. split; [discriminate|].
+      intros _. split; [|apply (in_nul_tail 64); [exact Hn1|discriminate]].
+      exists [124; 64]. split; [reflexivity|]. split; [repeat apply nonul_cons; try discriminate; apply nonul_nil|discriminate]. }
+    destruct (N.eqb_spec d 124) as [->|Hd].
+    { exists T_PIPE2, s''. split; [reflexivity|]. split; [discriminate|]. split; [discriminate|].
+      intros _. split; [|apply (in_nul_tail 124); [exact Hn1|discriminate]].
+      exists [124; 124]. split; [reflexivity|]. split; [repeat apply nonul_cons; try discriminate; apply nonul_nil|discriminate]. }
+    exists T_PIPE, (d :: s''). split; [reflexivity|]. split; [discriminate|]. split; [discriminate|].
+    intros _. split; [apply advP_cons1; discriminate|exact Hn1]. }
+  destruct (N.eqb_spec c 0) as [->|H0].
+  { exists T_TEOF, s'. split; [reflexivity|]. split; [auto|]. split; [discriminate|]. intros H; contradiction. }
+  exists T_ERROR, s'. split; [reflexivity|]. split; [discriminate|]. split; [discriminate|].
+  intros _. split; [apply advP_cons1; exact H0|apply (in_nul_tail c); assumption].
+Qed.
+
+Definition is_nil {A} (l : list A) : bool := match l with [] => true | _ => false end.
+Definition spaces (q : bytes) : Prop := Forall (eq 32) q.
+
+Lemma spaces_nonul q : spaces q -> nonul q.
+Proof. intros H Hin. unfold spaces in H. rewrite Forall_forall in H. apply H in Hin. discriminate. Qed.
+
+Definition tok_post (st : bytes) (t : token) (st' r : bytes) : Prop :=
+  advP p_bol st st' /\ In 0 st' /\
+  (t = T_TEOF -> st' = 0 :: r) /\
+  (t = T_NEWLINE -> advP p_nl st' r) /\
+  (t <> T_TEOF -> advP p_ne st' r /\ In 0 r).
+
+Definition aux_inv (s st : bytes) (sp : bool) (m : rtmode) : Prop :=
+  match m with
+  | RT_spaces => exists q, st = q ++ s /\ spaces q /\ sp = negb (is_nil q)
+  | RT_comment hr => exists q b, st = q ++ hr /\ spaces q /\ sp = negb (is_nil q) /\
+                                 hr = 35 :: b ++ s /\ nonul b
+  end.
+
+Lemma tok_fallback c s' st q sp :
+  In 0 (c :: s') -> st = q ++ c :: s' -> spaces q -> sp = negb (is_nil q) ->
+  exists t st' r,
+    (if sp then Ok (T_INDENT, st, c :: s')
+     else match scan_plain c s' with Ok (t, r) => Ok (t, st, r) | Err e => Err e end) = Ok (t, st', r)
+    /\ tok_post st t st' r.
+Proof.
+  intros Hn Hst Hq Hsp.
+  assert (Hnst : In 0 st) by (rewrite Hst; apply in_or_app; now right).
+  destruct q as [|x q]; cbn [is_nil negb] in Hsp; subst sp.
+  - cbn [app] in Hst. subst st.
+    destruct (scan_plain_spec c s' Hn) as [t [r [He [Ht [Hnl Hadv]]]]]. rewrite He.
+    exists t, (c :: s'), r. split; [reflexivity|].
+    split; [apply advP_refl; now left|]. split; [exact Hn|].
+    split; [intros E; destruct (Ht E) as [-> ->]; reflexivity|].
+    split; [intros E; contradiction|exact Hadv].
+  - exists T_INDENT, st, (c :: s'). split; [reflexivity|].
+    split; [apply advP_refl; now left|]. split; [exact Hnst|].
+    split; [discriminate|]. split; [discriminate|]. intros _. split; [|exact Hn].
+    exists (x :: q). split; [exact Hst|]. split; [now apply spaces_nonul|discriminate].
+Qed.
+
+Lemma read_token_aux_spec : forall s st sp m, In 0 s -> aux_inv s st sp m ->
+  exists t st' r, read_token_aux s st sp m = Ok (t, st', r) /\ tok_post st t st' r.
+Proof.
+  induction s as [|c s' IH]; intros st sp m Hn Hinv; [destruct Hn|].
+  destruct m as [|hr]; cbn [read_token_aux aux_inv] in *.
+  - destruct Hinv as [q [Hst [Hq Hsp]]].
+    destruct (N.eqb_spec c 32) as [->|H32].
+    { apply IH; [apply (in_nul_tail 32); [exact Hn|discriminate]|].
+      cbn [aux_inv]. exists (q ++ [32]). split; [rewrite Hst, <- app_assoc; reflexivity|].
+      split; [apply Forall_app; split; [exact Hq|repeat constructor]|].
+      destruct q; reflexivity. }
+    destruct (N.eqb_spec c 35) as [->|H35].
+    { apply IH; [apply (in_nul_tail 35); [exact Hn|discriminate]|].
+      cbn [aux_inv]. exists q, []. repeat split; auto. apply nonul_nil. }
+    destruct (N.eqb_spec c 10) as [->|H10].
+    { exists T_NEWLINE, st, s'. split; [reflexivity|].
+      assert (Hn' : In 0 s') by (apply (in_nul_tail 10); [exact Hn|discriminate]).
+      assert (Ha : advP p_nl st s').
+      { exists (q ++ [10]). split; [rewrite Hst, <- app_assoc; reflexivity|].
+        split; [apply nonul_app; [now apply spaces_nonul|apply nonul_cons; [discriminate|apply nonul_nil]]|now exists q]. }
+      split; [apply advP_refl; now left|]. split; [rewrite Hst; apply in_or_app; now right|].
+      split; [discriminate|]. split; [intros _; exact Ha|].
+      intros _. split; [eapply advP_weaken; [exact Ha|apply p_nl_ne]|exact Hn']. }
+    destruct (N.eqb_spec c 13) as [->|H13]; [|now apply (tok_fallback c s' st q sp)].
+    assert (Hn1 : In 0 s') by (apply (in_nul_tail 13); [exact Hn|discriminate]).
+    destruct s' as [|d s'']; [destruct Hn1|].
+    destruct (N.eqb_spec d 10) as [->|Hd]; [|now apply (tok_fallback 13 (d :: s'') st q sp)].
+    exists T_NEWLINE, st, s''. split; [reflexivity|].
+    assert (Hn' : In 0 s'') by (apply (in_nul_tail 10); [exact Hn1|discriminate]).
+    assert (Ha : advP p_nl st s'').
+    { exists (q ++ [13; 10]). split; [rewrite Hst, <- app_assoc; reflexivity|].
+      split; [apply nonul_app; [now apply spaces_nonul|repeat apply nonul_cons; try discriminate; apply nonul_nil]|].
+      exists (q ++ [13]). rewrite <- app_assoc. reflexivity. }
+    split; [apply advP_refl; now left|]. split; [rewrite Hst; apply in_or_app; now right|].
+    split; [discriminate|]. split; [intros _; exact Ha|].
+    intros _. split; [eapply advP_weaken; [exact Ha|apply p_nl_ne]|exact Hn'].
+  - destruct Hinv as [q [b [Hst [Hq [Hsp [Hhr Hb]]]]]].
+    destruct (N.eqb_spec c 10) as [->|H10].
+    { assert (Hn' : In 0 s') by (apply (in_nul_tail 10); [exact Hn|discriminate]).
+      destruct (IH s' false RT_spaces Hn') as [t [st' [r [He Hp]]]].
+      { cbn [aux_inv]. exists []. repeat split. constructor. }
+      exists t, st', r. split; [exact He|].
+      destruct Hp as [H1 [H2 [H3 [H4 H5]]]]. split; [|repeat split; auto; apply H5; auto].
+      eapply advP_comp; [|exact H1|apply p_bol_bol].
+      exists (q ++ 35 :: b ++ [10]). split.
+      { rewrite Hst, Hhr. rewrite <- !app_assoc. cbn [app]. rewrite <- app_assoc. reflexivity. }
+      split.
+      { apply nonul_app; [now apply spaces_nonul|]. apply nonul_cons; [discriminate|].
+        apply nonul_app; [exact Hb|apply nonul_cons; [discriminate|apply nonul_nil]]. }
+      right. exists (q ++ 35 :: b). rewrite <- app_assoc. reflexivity. }
+    destruct (N.eqb_spec c 0) as [->|H0].
+    { assert (Hnhr : In 0 hr) by (rewrite Hhr; right; apply in_or_app; right; now left).
+      assert (Hnst : In 0 st) by (rewrite Hst; apply in_or_app; now right).
+      destruct q as [|x q]; cbn [is_nil negb] in Hsp; subst sp.
+      - cbn [app] in Hst. subst st. exists T_ERROR, hr, (tl hr). split; [reflexivity|].
+        split; [apply advP_refl; now left|]. split; [exact Hnhr|].
+        split; [discriminate|]. split; [discriminate|]. intros _. rewrite Hhr. cbn [tl].
+        split; [apply advP_cons1; discriminate|apply in_or_app; right; now left].
+      - exists T_INDENT, st, hr. split; [reflexivity|].
+        split; [apply advP_refl; now left|]. split; [exact Hnst|].
+        split; [discriminate|]. split; [discriminate|]. intros _. split; [|exact Hnhr].
+        exists (x :: q). split; [exact Hst|]. split; [now apply spaces_nonul|discriminate]. }
+    apply IH; [apply (in_nul_tail c); assumption|].
+    cbn [aux_inv]. exists q, (b ++ [c]). repeat split; auto.
+    + rewrite Hhr, <- app_assoc. reflexivity.
+    + apply nonul_app; [exact Hb|apply nonul_cons; [exact H0|apply nonul_nil]].
+Qed.
+
+Lemma read_token_spec s : In 0 s ->
+  exists t st r, read_token s = Ok (t, st, r) /\ tok_post s t st r.
+Proof.
+  intros Hn. unfold read_token.
+  destruct (read_token_aux_spec s s false RT_spaces Hn) as [t [st [r0 [He Hp]]]].
+  { cbn [aux_inv]. exists []. repeat split. constructor. }
+  rewrite He. destruct Hp as [H1 [H2 [H3 [H4 H5]]]].
+  assert (Hdone : exists t' st' r', Ok (t, st, r0) = Ok (t', st', r') /\ tok_post s t' st' r').
+  { exists t, st, r0. split; [reflexivity|]. repeat split; auto; apply H5; auto. }
+  assert (Hws : t <> T_TEOF -> t <> T_NEWLINE ->
+          exists t' st' r', match eat_ws r0 with Ok r' => Ok (t, st, r') | Err e => Err e end = Ok (t', st', r')
+                            /\ tok_post s t' st' r').
+  { intros Ht Hnl. destruct (H5 Ht) as [Ha Hr0].
+    destruct (eat_ws_spec r0 Hr0) as [r [Hw Haw]]. rewrite Hw.
+    exists t, st, r. split; [reflexivity|]. split; [exact H1|]. split; [exact H2|].
+    split; [intros; contradiction|]. split; [intros; contradiction|]. intros _.
+    split; [|eapply advP_nul; eauto].
+    eapply advP_comp; [exact Ha|exact Haw|]. intros a b Hne _. now apply p_ne_app_l. }
+  destruct t; try exact Hdone; apply Hws; discriminate.
+Qed.
+
+(* ---------- ReadEvalString ---------- *)
+Lemma ckind_of_spec c :
+  match ckind_of c with
+  | K_dollar => c = 36 | K_space => c = 32 | K_colon => c = 58 | K_pipe => c = 124
+  | K_cr => c = 13 | K_lf => c = 10 | K_nul => c = 0
+  | K_text => c <> 36 /\ c <> 32 /\ c <> 58 /\ c <> 124 /\ c <> 13 /\ c <> 10 /\ c <> 0
+  end.
+Proof.
+  unfold ckind_of.
+  destruct (N.eqb_spec c 36) as [->|H1]; [reflexivity|].
+  destruct (N.eqb_spec c 32) as [->|H2]; [reflexivity|].
+  destruct (N.eqb_spec c 58) as [->|H3]; [reflexivity|].
+  destruct (N.eqb_spec c 124) as [->|H4]; [reflexivity|].
+  destruct (N.eqb_spec c 13) as [->|H5]; [reflexivity|].
+  destruct (N.eqb_spec c 10) as [->|H6]; [reflexivity|].
+  destruct (N.eqb_spec c 0) as [->|H7]; [reflexivity|].
+  repeat split; assumption.
+Qed.
+
+Definition ev_res := result (bytes * bool * bytes).
+
+(* the [normal] part of one step of read_eval, the recursive calls abstracted *)
+Definition ev_normal (rec : bytes -> evmode -> bytes -> bool -> ev_res)
+           (path : bool) (c : byte) (s' : bytes) (acc : bytes) (ne : bool) : ev_res :=
+  match ckind_of c with
+  | K_text => rec s' EM_normal (c :: acc) true
+  | K_nul => Err E_unexpected_eof
+  | K_cr =>
+    match s' with
+    | [] => Err E_overrun
+    | d :: s'' => if N.eqb d 10 then Ok (rev acc, ne, if path then c :: s' else s'')
+                  else Err E_lexing
+    end
+  | K_lf => Ok (rev acc, ne, if path then c :: s' else s')
+  | K_space | K_colon | K_pipe =>
+    if path then Ok (rev acc, ne, c :: s') else rec s' EM_normal (c :: acc) true
+  | K_dollar =>
+    match s' with
+    | [] => Err E_overrun
+    | d :: s'' =>
+      if N.eqb d 36 then rec s'' EM_normal (36 :: acc) true
+      else if N.eqb d 32 then rec s'' EM_normal (32 :: acc) true
+      else if N.eqb d 58 then rec s'' EM_normal (58 :: acc) true
+      else if N.eqb d 10 then rec s'' EM_skipsp acc ne
+      else if N.eqb d 13 then
+        match s'' with
+        | [] => Err E_overrun
+        | e :: s3 => if N.eqb e 10 then rec s3 EM_skipsp acc ne else Err E_bad_escape
+        end
+      else if N.eqb d 123 then rec s'' (EM_brace false) acc ne
+      else if N.eqb d 94 then Err E_newline_version
+      else if is_simple_varname_char d then rec s'' EM_simple acc true
+      else Err E_bad_escape
+    end
+  end.
+
+Lemma read_eval_unfold path c s' m acc ne :
+  read_eval path (c :: s') m acc ne =
+  match m with
+  | EM_normal => ev_normal (read_eval path) path c s' acc ne
+  | EM_skipsp => if N.eqb c 32 then read_eval path s' EM_skipsp acc ne
+                 else ev_normal (read_eval path) path c s' acc ne
+  | EM_simple => if is_simple_varname_char c then read_eval path s' EM_simple acc ne
+                 else ev_normal (read_eval path) path c s' acc ne
+  | EM_brace b =>
+    if is_varname_char c then read_eval path s' (EM_brace true) acc ne
+    else if N.eqb c 125 && b then read_eval path s' EM_normal acc true
+    else Err E_bad_escape
+  end.
+Proof. destruct m; reflexivity. Qed.
+
+Definition ev_post (path : bool) (s : bytes) (ne : bool) (res : ev_res) : Prop :=
+  match res with
+  | Err e => okerr e
+  | Ok (t, ne', r) =>
+    In 0 r /\ exists c, s = c ++ r /\ nonul c /\ (ne' = true -> ne = true \/ c <> []) /\
+                        (path = false -> p_nl c)
+  end.
+
+Lemma ev_post_prepend path pre s2 ne ne2 res :
+  nonul pre -> pre <> [] -> ev_post path s2 ne2 res -> ev_post path (pre ++ s2) ne res.
+Proof.
+  intros Hp Hne. destruct res as [[[t ne'] r]|e]; cbn [ev_post]; [|auto].
+  intros [Hr [c [-> [Hc [_ Hnl]]]]]. split; [exact Hr|].
+  exists (pre ++ c). split; [now rewrite app_assoc|]. split; [now apply nonul_app|].
+  split; [intros _; right; intros E; apply app_eq_nil in E; tauto|].
+  intros Hpf. apply p_nl_app_r. auto.
+Qed.
+
+Lemma okerr_simple e :
+  match e with E_overrun | E_fuel => False | _ => True end -> okerr e.
+Proof. intros H. split; intros ->; exact H. Qed.
+
+Lemma ev_normal_spec path c s' acc ne :
+  In 0 (c :: s') ->
+  (forall s2 m2 acc2 ne2, (length s2 < length (c :: s'))%nat -> In 0 s2 ->
+                          ev_post path s2 ne2 (read_eval path s2 m2 acc2 ne2)) ->
+  ev_post path (c :: s') ne (ev_normal (read_eval path) path c s' acc ne).
+Proof.
+  intros Hn IH. unfold ev_normal.
+  assert (Hstop : path = true -> ev_post path (c :: s') ne (Ok (rev acc, ne, c :: s'))).
+  { intros Hp. cbn [ev_post]. split; [exact Hn|]. exists []. split; [reflexivity|]. split; [apply nonul_nil|].
+    split; [intros ->; now left|congruence]. }
+  assert (Hrec1 : forall m2 acc2 ne2, c <> 0 ->
+             ev_post path (c :: s') ne (read_eval path s' m2 acc2 ne2)).
+  { intros m2 acc2 ne2 Hc. apply (ev_post_prepend path [c] s' ne ne2).
+    - apply nonul_cons; [exact Hc|apply nonul_nil].
+    - discriminate.
+    - apply IH; [cbn [length]; lia|apply (in_nul_tail c); assumption]. }
+  pose proof (ckind_of_spec c) as Hk.
+  destruct (ckind_of c).
+  - (* text *) apply Hrec1. tauto.
+  - (* dollar *) subst c.
+    assert (Hn1 : In 0 s') by (apply (in_nul_tail 36); [exact Hn|discriminate]).
+    destruct s' as [|d s'']; [destruct Hn1|].
+    assert (Hrec2 : forall m2 acc2 ne2, d <> 0 ->
+               ev_post path (36 :: d :: s'') ne (read_eval path s'' m2 acc2 ne2)).
+    { intros m2 acc2 ne2 Hd. apply (ev_post_prepend path [36; d] s'' ne ne2).
+      - repeat apply nonul_cons; try discriminate; [exact Hd|apply nonul_nil].
+      - discriminate.
+      - apply IH; [cbn [length]; lia|apply (in_nul_tail d); assumption]. }
+    destruct (N.eqb_spec d 36) as [->|H1]; [apply Hrec2; discriminate|].
+    destruct (N.eqb_spec d 32) as [->|H2]; [apply Hrec2; discriminate|].
+    destruct (N.eqb_spec d 58) as [->|H3]; [apply Hrec2; discriminate|].
+    destruct (N.eqb_spec d 10) as [->|H4]; [apply Hrec2; discriminate|].
+    destruct (N.eqb_spec d 13) as [->|H5].
+    { assert (Hn2 : In 0 s'') by (apply (in_nul_tail 13); [exact Hn1|discriminate]).
+      destruct s'' as [|e s3]; [destruct Hn2|].
+      destruct (N.eqb_spec e 10) as [->|H6]; [|apply okerr_simple; exact I].
+      apply (ev_post_prepend path [36; 13; 10] s3 ne ne).
+      - repeat apply nonul_cons; try discriminate; apply nonul_nil.
+      - discriminate.
+      - apply IH; [cbn [length]; lia|apply (in_nul_tail 10); [exact Hn2|discriminate]]. }
+    destruct (N.eqb_spec d 123) as [->|H7]; [apply Hrec2; discriminate|].
+    destruct (N.eqb_spec d 94) as [->|H8]; [apply okerr_simple; exact I|].
+    destruct (is_simple_varname_char d) eqn:Hs; [|apply okerr_simple; exact I].
+    apply Hrec2. now apply simple_varname_char_not_nul.
+  - (* space *) subst c. destruct path; [apply Hstop; reflexivity|apply Hrec1; discriminate].
+  - (* colon *) subst c. destruct path; [apply Hstop; reflexivity|apply Hrec1; discriminate].
+  - (* pipe *) subst c. destruct path; [apply Hstop; reflexivity|apply Hrec1; discriminate].
+  - (* cr *) subst c.
+    assert (Hn1 : In 0 s') by (apply (in_nul_tail 13); [exact Hn|discriminate]).
+    destruct s' as [|d s'']; [destruct Hn1|].
+    destruct (N.eqb_spec d 10) as [->|Hd]; [|apply okerr_simple; exact I].
+    destruct path; [apply Hstop; reflexivity|].
+    cbn [ev_post]. split; [apply (in_nul_tail 10); [exact Hn1|discriminate]|].
+    exists [13; 10]. split; [reflexivity|].
+    split; [repeat apply nonul_cons; try discriminate; apply nonul_nil|].
+    split; [intros _; right; discriminate|]. intros _. now exists [13].
+  - (* lf *) subst c. destruct path; [apply Hstop; reflexivity|].
+    cbn [ev_post]. split; [apply (in_nul_tail 10); [exact Hn|discriminate]|].
+    exists [10]. split; [reflexivity|].
+    split; [apply nonul_cons; [discriminate|apply nonul_nil]|].
+    split; [intros _; right; discriminate|]. intros _. now exists [].
+  - (* nul *) apply okerr_simple. exact I.
+Qed.
+
+Lemma read_eval_spec path : forall s m acc ne,
+  In 0 s -> ev_post path s ne (read_eval path s m acc ne).
+Proof.
+  intros s. induction s as [s IH] using (induction_ltof1 _ (@length byte)). unfold ltof in IH.
+  intros m acc ne Hn. destruct s as [|c s']; [destruct Hn|].
+  assert (IH' : forall s2 m2 acc2 ne2, (length s2 < length (c :: s'))%nat -> In 0 s2 ->
+                                       ev_post path s2 ne2 (read_eval path s2 m2 acc2 ne2)).
+  { intros s2 m2 acc2 ne2 Hl Hn2. now apply IH. }
+  pose proof (ev_normal_spec path c s' acc ne Hn IH') as Hnorm.
+  assert (Hrec1 : forall m2 acc2 ne2, c <> 0 ->
+             ev_post path (c :: s') ne (read_eval path s' m2 acc2 ne2)).
+  { intros m2 acc2 ne2 Hc. apply (ev_post_prepend path [c] s' ne ne2).
+    - apply nonul_cons; [exact Hc|apply nonul_nil].
+    - discriminate.
+    - apply IH'; [cbn [length]; apply Nat.lt_succ_diag_r|apply (in_nul_tail c); assumption]. }
+  rewrite read_eval_unfold. destruct m as [| | |b].
+  - exact Hnorm.
+  - destruct (N.eqb_spec c 32) as [->|H]; [apply Hrec1; discriminate|exact Hnorm].
+  - destruct (is_simple_varname_char c) eqn:Hs; [|exact Hnorm].
+    apply Hrec1. now apply simple_varname_char_not_nul.
+  - destruct (is_varname_char c) eqn:Hv; [apply Hrec1; now apply varname_char_not_nul|].
+    destruct (N.eqb_spec c 125) as [->|H]; cbn [andb]; [|apply okerr_simple; exact I].
+    destruct b; [apply Hrec1; discriminate|apply okerr_simple; exact I].
+Qed.
+
+(* ---------- the parser's building blocks ---------- *)
+Definition res_post {A} (r : result A) (Q : A -> Prop) : Prop :=
+  match r with Err e => okerr e | Ok a => Q a end.
+
+Lemma token_eqb_eq a b : token_eqb a b = true -> a = b.
+Proof. destruct a, b; cbn [token_eqb]; intros H; try discriminate; reflexivity. Qed.
+
+Lemma any_comp (P Q : bytes -> Prop) s m r : advP P s m -> advP Q m r -> advP p_any s r.
+Proof. intros H1 H2. eapply advP_comp; eauto. intros; exact I. Qed.
+
+Lemma read_path_spec s : In 0 s ->
+  res_post (read_path s) (fun '(t, ne, r) => In 0 r /\ advP (fun c => ne = true -> c <> []) s r).
+Proof.
+  intros Hn. unfold read_path.
+  pose proof (read_eval_spec true s EM_normal [] false Hn) as H.
+  destruct (read_eval true s EM_normal [] false) as [[[t ne] r0]|e]; [|exact H].
+  cbn [ev_post] in H. destruct H as [Hr0 [c [-> [Hc [Hne _]]]]].
+  destruct (eat_ws_spec r0 Hr0) as [r [Hw Ha]]. rewrite Hw. cbn [res_post].
+  split; [eapply advP_nul; eauto|].
+  destruct Ha as [c2 [-> [Hc2 _]]]. exists (c ++ c2).
+  split; [now rewrite app_assoc|]. split; [now apply nonul_app|].
+  intros E. destruct (Hne E) as [H|H]; [discriminate|]. intros E2. apply app_eq_nil in E2. tauto.
+Qed.
+
+Lemma read_var_value_spec s : In 0 s ->
+  res_post (read_var_value s) (fun '(t, ne, r) => In 0 r /\ advP p_nl s r).
+Proof.
+  intros Hn. unfold read_var_value.
+  pose proof (read_eval_spec false s EM_normal [] false Hn) as H.
+  destruct (read_eval false s EM_normal [] false) as [[[t ne] r]|e]; [|exact H].
+  cbn [ev_post res_post] in *. destruct H as [Hr [c [-> [Hc [_ Hnl]]]]].
+  split; [exact Hr|]. exists c. auto.
+Qed.
+
+Lemma read_ident_spec s : In 0 s ->
+  res_post (read_ident s) (fun o => match o with
+                                    | None => True
+                                    | Some (w, r) => In 0 r /\ advP p_ne s r
+                                    end).
+Proof.
+  intros Hn. unfold read_ident. destruct s as [|c s']; [destruct Hn|].
+  destruct (is_varname_char c) eqn:Hv; [|exact I].
+  pose proof (varname_char_not_nul c Hv) as Hc.
+  destruct (span_varname_spec s' (in_nul_tail c s' Hn Hc)) as [w [r0 [He [-> [Hw Hr0]]]]].
+  rewrite He. destruct (eat_ws_spec r0 Hr0) as [r [Hws Ha]]. rewrite Hws. cbn [res_post].
+  split; [eapply advP_nul; eauto|].
+  eapply advP_comp; [|exact Ha|intros a b H _; apply p_ne_app_l; exact H].
+  exists (c :: w). split; [reflexivity|]. split; [now apply nonul_cons|discriminate].
+Qed.
+
+Lemma expect_token_spec want s : want <> T_TEOF -> In 0 s ->
+  res_post (expect_token want s)
+           (fun r => In 0 r /\ advP p_ne s r /\ (want = T_NEWLINE -> advP p_nl s r)).
+Proof.
+  intros Hw Hn. unfold expect_token.
+  destruct (read_token_spec s Hn) as [t [st [r [He Hp]]]]. rewrite He.
+  destruct Hp as [H1 [H2 [H3 [H4 H5]]]].
+  destruct (token_eqb t want) eqn:Ht; [|apply okerr_simple; exact I].
+  apply token_eqb_eq in Ht. subst t. cbn [res_post].
+  destruct (H5 Hw) as [Ha Hr]. split; [exact Hr|]. split.
+  - eapply advP_comp; [exact H1|exact Ha|intros a b _ H; apply p_ne_app_r; exact H].
+  - intros E. eapply advP_comp; [exact H1|exact (H4 E)|intros a b _ H; apply p_nl_app_r; exact H].
+Qed.
+
+Lemma peek_token_spec want s : want <> T_TEOF -> In 0 s ->
+  res_post (peek_token want s)
+           (fun '(b, r) => In 0 r /\ (b = true -> advP p_ne s r) /\ (b = false -> advP p_bol s r)).
+Proof.
+  intros Hw Hn. unfold peek_token.
+  destruct (read_token_spec s Hn) as [t [st [r [He Hp]]]]. rewrite He.
+  destruct Hp as [H1 [H2 [H3 [H4 H5]]]].
+  destruct (token_eqb t want) eqn:Ht; cbn [res_post].
+  - apply token_eqb_eq in Ht. subst t. destruct (H5 Hw) as [Ha Hr].
+    split; [exact Hr|]. split; [|discriminate]. intros _.
+    eapply advP_comp; [exact H1|exact Ha|intros a b _ H; apply p_ne_app_r; exact H].
+  - split; [exact H2|]. split; [discriminate|]. intros _. exact H1.
+Qed.
+
+Lemma parse_let_spec s : In 0 s ->
+  res_post (parse_let s) (fun '(k, v, r) => In 0 r /\ advP p_nl s r).
+Proof.
+  intros Hn. unfold parse_let.
+  pose proof (read_ident_spec s Hn) as H1.
+  destruct (read_ident s) as [[[key r1]|]|e]; [| apply okerr_simple; exact I | exact H1].
+  cbn [res_post] in H1. destruct H1 as [Hn1 Ha1].
+  pose proof (expect_token_spec T_EQUALS r1 ltac:(discriminate) Hn1) as H2.
+  destruct (expect_token T_EQUALS r1) as [r2|e]; [|exact H2].
+  cbn [res_post] in H2. destruct H2 as [Hn2 [Ha2 _]].
+  pose proof (read_var_value_spec r2 Hn2) as H3.
+  destruct (read_var_value r2) as [[[v ne] r3]|e]; [|exact H3].
+  cbn [res_post] in *. destruct H3 as [Hn3 Ha3]. split; [exact Hn3|].
+  eapply advP_comp; [eapply any_comp; [exact Ha1|exact Ha2]|exact Ha3|].
+  intros a b _ H. now apply p_nl_app_r.
+Qed.
+
+Lemma parse_version_spec s : In 0 s ->
+  res_post (parse_version s) (fun r => In 0 r /\ advP p_nl s r).
+Proof.
+  intros Hn. unfold parse_version.
+  pose proof (parse_let_spec s Hn) as H.
+  destruct (parse_let s) as [[[name [v ne]] r]|e]; [|exact H].
+  cbn [res_post] in H.
+  destruct (negb (bytes_eqb name s_version_var)); [apply okerr_simple; exact I|].
+  destruct (version_ok v); [exact H|apply okerr_simple; exact I].
+Qed.
+
+Lemma read_paths_spec : forall fuel (s : bytes), In 0 s -> (length s < fuel)%nat ->
+  res_post (read_paths fuel s) (fun '(l, r) => In 0 r /\ advP p_any s r).
+Proof.
+  induction fuel as [|f IH]; intros s Hn Hl; [lia|]. cbn [read_paths].
+  pose proof (read_path_spec s Hn) as H1.
+  destruct (read_path s) as [[[t ne] r]|e]; [|exact H1].
+  cbn [res_post] in H1. destruct H1 as [Hr Ha].
+  unfold ev_empty. destruct ne; cbn [negb].
+  - assert (Hlt : (length r < length s)%nat).
+    { apply advP_len_ne. eapply advP_weaken; [exact Ha|]. intros c Hc. now apply Hc. }
+    pose proof (IH r Hr ltac:(lia)) as H2.
+    destruct (read_paths f r) as [[l r']|e]; [|exact H2].
+    cbn [res_post] in *. destruct H2 as [Hr' Ha']. split; [exact Hr'|]. eapply any_comp; eauto.
+  - cbn [res_post]. split; [exact Hr|]. eapply advP_weaken; [exact Ha|intros; exact I].
+Qed.
+
+Lemma canon_paths_err l e : canon_paths l = Err e -> e = E_empty_path.
+Proof.
+  revert e; induction l as [|p l IH]; intros e; cbn [canon_paths]; [discriminate|].
+  destruct p; [now intros [= <-]|].
+  destruct (canon_paths l) as [r|e']; [discriminate|]. intros [= <-]. now apply IH.
+Qed.
+
+Definition chk_ok (chk : list dd_stmt -> bytes -> option dd_err) : Prop :=
+  forall seen out e, chk seen out = Some e -> okerr e.
+
+Lemma no_chk_ok : chk_ok no_chk.
+Proof. intros seen out e H. discriminate. Qed.
+Lemma graph_chk_ok g : chk_ok (graph_chk g).
+Proof.
+  intros seen out e. unfold graph_chk. destruct (producer g out) as [i|].
+  - destruct (existsb _ seen); [intros [= <-]; apply okerr_simple; exact I|discriminate].
+  - intros [= <-]. apply okerr_simple; exact I.
+Qed.
+
+Lemma parse_edge_spec fuel chk seen (s : bytes) : chk_ok chk -> In 0 s -> (length s < fuel)%nat ->
+  res_post (parse_edge fuel chk seen s) (fun '(st, r) => In 0 r /\ advP p_nl s r).
+Proof.
+  intros Hchk Hn Hl. unfold parse_edge.
+  pose proof (read_path_spec s Hn) as H1.
+  destruct (read_path s) as [[[t0 ne0] r1]|e]; [|exact H1].
+  cbn [res_post] in H1. destruct H1 as [Hn1 Ha1].
+  destruct (ev_empty t0 ne0); [apply okerr_simple; exact I|].
+  destruct t0 as [|x0 t0]; [apply okerr_simple; exact I|].
+  destruct (chk seen (canon (x0 :: t0))) as [e|] eqn:Hc; [exact (Hchk _ _ _ Hc)|].
+  pose proof (read_path_spec r1 Hn1) as H2.
+  destruct (read_path r1) as [[[t1 ne1] r2]|e]; [|exact H2].
+  cbn [res_post] in H2. destruct H2 as [Hn2 Ha2].
+  destruct (negb (ev_empty t1 ne1)); [apply okerr_simple; exact I|].
+  pose proof (any_comp _ _ _ _ _ Ha1 Ha2) as A2.
+  pose proof (peek_token_spec T_PIPE r2 ltac:(discriminate) Hn2) as H3.
+  destruct (peek_token T_PIPE r2) as [[has_outs r3]|e]; [|exact H3].
+  cbn [res_post] in H3. destruct H3 as [Hn3 [Ha3t Ha3f]].
+  assert (A3 : advP p_any s r3).
+  { destruct has_outs; [eapply any_comp; [exact A2|exact (Ha3t eq_refl)]
+                       |eapply any_comp; [exact A2|exact (Ha3f eq_refl)]]. }
+  assert (H4 : res_post (if has_outs then read_paths fuel r3 else Ok ([], r3))
+                        (fun '(l, r) => In 0 r /\ advP p_any r3 r)).
+  { destruct has_outs.
+    - apply read_paths_spec; [exact Hn3|]. pose proof (advP_len _ _ _ A3). lia.
+    - cbn [res_post]. split; [exact Hn3|apply advP_refl; exact I]. }
+  destruct (if has_outs then read_paths fuel r3 else Ok ([], r3)) as [[outs r4]|e]; [|exact H4].
+  cbn [res_post] in H4. destruct H4 as [Hn4 Ha4].
+  pose proof (any_comp _ _ _ _ _ A3 Ha4) as A4.
+  pose proof (expect_token_spec T_COLON r4 ltac:(discriminate) Hn4) as H5.
+  destruct (expect_token T_COLON r4) as [r5|e]; [|exact H5].
+  cbn [res_post] in H5. destruct H5 as [Hn5 [Ha5 _]].
+  pose proof (any_comp _ _ _ _ _ A4 Ha5) as A5.
+  pose proof (read_ident_spec r5 Hn5) as H6.
+  destruct (read_ident r5) as [[[rule r6]|]|e]; [| apply okerr_simple; exact I | exact H6].
+  cbn [res_post] in H6. destruct H6 as [Hn6 Ha6].
+  pose proof (any_comp _ _ _ _ _ A5 Ha6) as A6.
+  destruct (negb (bytes_eqb rule s_dyndep)); [apply okerr_simple; exact I|].
+  pose proof (read_path_spec r6 Hn6) as H7.
+  destruct (read_path r6) as [[[t2 ne2] r7]|e]; [|exact H7].
+  cbn [res_post] in H7. destruct H7 as [Hn7 Ha7].
+  pose proof (any_comp _ _ _ _ _ A6 Ha7) as A7.
+  destruct (negb (ev_empty t2 ne2)); [apply okerr_simple; exact I|].
+  pose proof (peek_token_spec T_PIPE r7 ltac:(discriminate) Hn7) as H8.
+  destruct (peek_token T_PIPE r7) as [[has_ins r8]|e]; [|exact H8].
+  cbn [res_post] in H8. destruct H8 as [Hn8 [Ha8t Ha8f]].
+  assert (A8 : advP p_any s r8).
+  { destruct has_ins; [eapply any_comp; [exact A7|exact (Ha8t eq_refl)]
+                      |eapply any_comp; [exact A7|exact (Ha8f eq_refl)]]. }
+  assert (H9 : res_post (if has_ins then read_paths fuel r8 else Ok ([], r8))
+                        (fun '(l, r) => In 0 r /\ advP p_any r8 r)).
+  { destruct has_ins.
+    - apply read_paths_spec; [exact Hn8|]. pose proof (advP_len _ _ _ A8). lia.
+    - cbn [res_post]. split; [exact Hn8|apply advP_refl; exact I]. }
+  destruct (if has_ins then read_paths fuel r8 else Ok ([], r8)) as [[ins r9]|e]; [|exact H9].
+  cbn [res_post] in H9. destruct H9 as [Hn9 Ha9].
+  pose proof (any_comp _ _ _ _ _ A8 Ha9) as A9.
+  pose proof (peek_token_spec T_PIPE2 r9 ltac:(discriminate) Hn9) as H10.
+  destruct (peek_token T_PIPE2 r9) as [[[|] r10]|e]; [apply okerr_simple; exact I| |exact H10].
+  cbn [res_post] in H10. destruct H10 as [Hn10 [_ Ha10]].
+  pose proof (any_comp _ _ _ _ _ A9 (Ha10 eq_refl)) as A10.
+  pose proof (expect_token_spec T_NEWLINE r10 ltac:(discriminate) Hn10) as H11.
+  destruct (expect_token T_NEWLINE r10) as [r11|e]; [|exact H11].
+  cbn [res_post] in H11. destruct H11 as [Hn11 [_ Ha11]]. specialize (Ha11 eq_refl).
+  assert (A11 : advP p_nl s r11).
+  { eapply advP_comp; [exact A10|exact Ha11|intros a b _ H; now apply p_nl_app_r]. }
+  pose proof (peek_token_spec T_INDENT r11 ltac:(discriminate) Hn11) as H12.
+  destruct (peek_token T_INDENT r11) as [[has_let r12]|e]; [|exact H12].
+  cbn [res_post] in H12. destruct H12 as [Hn12 [Ha12t Ha12f]].
+  assert (H13 : res_post
+     (if has_let
+      then match parse_let r12 with
+           | Ok (key, (v, _), r13) =>
+             if negb (bytes_eqb key s_restat) then Err E_binding_not_restat
+             else Ok (negb match v with [] => true | _ :: _ => false end, r13)
+           | Err e => Err e
+           end
+      else Ok (false, r12))
+     (fun '(b, r) => In 0 r /\ advP p_nl s r)).
+  { destruct has_let.
+    - pose proof (parse_let_spec r12 Hn12) as HL.
+      destruct (parse_let r12) as [[[key [v ne]] r13]|e]; [|exact HL].
+      cbn [res_post] in HL. destruct HL as [Hn13 Ha13].
+      destruct (negb (bytes_eqb key s_restat)); [apply okerr_simple; exact I|].
+      cbn [res_post]. split; [exact Hn13|].
+      eapply advP_comp; [eapply any_comp; [exact A11|exact (Ha12t eq_refl)]|exact Ha13|].
+      intros a b _ H. now apply p_nl_app_r.
+    - cbn [res_post]. split; [exact Hn12|].
+      eapply advP_comp; [exact A11|exact (Ha12f eq_refl)|apply p_nl_bol]. }
+  match goal with
+  | |- res_post (match ?X with Ok _ => _ | Err _ => _ end) _ =>
+    destruct X as [[restat r14]|e]; [|exact H13]
+  end.
+  cbn [res_post] in H13.
+  destruct (canon_paths ins) as [cins|e] eqn:Hci;
+    [|apply canon_paths_err in Hci; subst e; apply okerr_simple; exact I].
+  destruct (canon_paths outs) as [couts|e] eqn:Hco;
+    [|apply canon_paths_err in Hco; subst e; apply okerr_simple; exact I].
+  exact H13.
+Qed.
+
+(* ---------- DyndepParser::Parse ---------- *)
+Definition loop_inv (have : bool) (c : bytes) : Prop := if have then p_nl c else p_bol c.
+
+Lemma parse_loop_spec fuel0 chk buf : chk_ok chk -> forall fuel (s : bytes) have acc,
+  In 0 s -> (length s < fuel)%nat -> (length s < fuel0)%nat ->
+  advP (loop_inv have) buf s ->
+  res_post (parse_loop fuel fuel0 chk s have acc)
+           (fun _ => exists c rest, buf = c ++ 0 :: rest /\ nonul c /\ p_nl c).
+Proof.
+  intros Hchk. induction fuel as [|f IH]; intros s have acc Hn Hl Hl0 Hinv; [lia|].
+  cbn [parse_loop].
+  destruct (read_token_spec s Hn) as [t [st [r [He Hp]]]]. rewrite He.
+  destruct Hp as [H1 [H2 [H3 [H4 H5]]]].
+  assert (Hst : advP (loop_inv have) buf st).
+  { eapply advP_comp; [exact Hinv|exact H1|]. intros a b Ha Hb. unfold loop_inv in *.
+    destruct have; [now apply p_nl_bol|now apply p_bol_bol]. }
+  assert (Hlst : (length st <= length s)%nat) by (eapply advP_len; eauto).
+  destruct t; try (apply okerr_simple; exact I).
+  - (* BUILD *)
+    destruct have; cbn [negb]; [|apply okerr_simple; exact I].
+    destruct (H5 ltac:(discriminate)) as [Ha Hr].
+    pose proof (advP_len_ne _ _ Ha) as Hlr.
+    pose proof (parse_edge_spec fuel0 chk acc r Hchk Hr ltac:(lia)) as HE.
+    destruct (parse_edge fuel0 chk acc r) as [[stmt r']|e]; [|exact HE].
+    cbn [res_post] in HE. destruct HE as [Hr' Ha'].
+    pose proof (advP_len _ _ _ Ha') as Hlr'.
+    apply IH; [exact Hr'|lia|lia|].
+    eapply advP_comp; [eapply any_comp; [exact Hst|exact Ha]|exact Ha'|].
+    intros a b _ Hb. cbn [loop_inv]. now apply p_nl_app_r.
+  - (* IDENT *)
+    destruct have; [apply okerr_simple; exact I|].
+    pose proof (parse_version_spec st H2) as HV.
+    destruct (parse_version st) as [r'|e]; [|exact HV].
+    cbn [res_post] in HV. destruct HV as [Hr' Ha'].
+    pose proof (advP_len_ne _ _ (advP_weaken _ _ _ _ Ha' p_nl_ne)) as Hlr'.
+    apply IH; [exact Hr'|lia|lia|].
+    eapply advP_comp; [exact Hst|exact Ha'|]. intros a b _ Hb. cbn [loop_inv]. now apply p_nl_app_r.
+  - (* NEWLINE *)
+    destruct (H5 ltac:(discriminate)) as [Ha Hr].
+    pose proof (advP_len_ne _ _ Ha) as Hlr.
+    apply IH; [exact Hr|lia|lia|].
+    eapply advP_comp; [exact Hst|exact (H4 eq_refl)|].
+    intros a b _ Hb. unfold loop_inv. destruct have; [now apply p_nl_app_r|right; now apply p_nl_app_r].
+  - (* TEOF *)
+    destruct have; [|apply okerr_simple; exact I].
+    cbn [res_post]. destruct Hst as [c [-> [Hc Hnl]]]. rewrite (H3 eq_refl).
+    exists c, r. auto.
+Qed.
+
+Lemma first_nul_unique : forall (a b x y : bytes),
+  a ++ 0 :: x = b ++ 0 :: y -> nonul a -> nonul b -> a = b.
+Proof.
+  induction a as [|p a IH]; intros b x y E Ha Hb.
+  - destruct b as [|q b]; [reflexivity|]. cbn [app] in E. injection E as E1 E2.
+    exfalso. apply Hb. left. auto.
+  - destruct b as [|q b]; cbn [app] in E; injection E as E1 E2.
+    + exfalso. apply Ha. left. auto.
+    + subst q. f_equal. apply (IH b x y E2).
+      * intros H. apply Ha. now right.
+      * intros H. apply Hb. now right.
+Qed.
+
+Lemma parse_raw_spec chk (buf : bytes) : chk_ok chk -> In 0 buf ->
+  res_post (parse_raw chk buf) (fun _ => exists c rest, buf = c ++ 0 :: rest /\ nonul c /\ p_nl c).
+Proof.
+  intros Hchk Hn. unfold parse_raw.
+  apply (parse_loop_spec (S (length buf)) chk buf Hchk); auto.
+  apply advP_refl. cbn [loop_inv]. now left.
+Qed.
+
+Lemma parse_gen_spec chk (content : bytes) : chk_ok chk ->
+  res_post (parse_gen chk content)
+           (fun _ => exists c rest, content ++ [0] = c ++ 0 :: rest /\ nonul c /\ p_nl c).
+Proof.
+  intros Hchk. unfold parse_gen. apply parse_raw_spec; [exact Hchk|].
+  apply in_or_app. right. now left.
+Qed.
+
+(** C13: for every buffer that contains the NUL sentinel, no scanner of the model ever looks past
+    the end of the buffer and no loop of the parser runs out of its fuel: the parser is total and
+    the result is a genuine answer of DyndepParser::Parse. *)
+Theorem C13_dyndep_total_raw_proof : forall chk buf,
+  chk_ok chk -> In 0 buf ->
+  parse_raw chk buf <> Err E_overrun /\ parse_raw chk buf <> Err E_fuel.
+Proof.
+  intros chk buf Hchk Hn. pose proof (parse_raw_spec chk buf Hchk Hn) as H.
+  destruct (parse_raw chk buf) as [l|e]; [split; discriminate|].
+  cbn [res_post] in H. destruct H as [H1 H2]. split; intros [= ->]; congruence.
+Qed.
+
+Theorem C13_dyndep_total_proof : forall chk content,
+  chk_ok chk ->
+  parse_gen chk content <> Err E_overrun /\ parse_gen chk content <> Err E_fuel.
+Proof.
+  intros chk content Hchk. unfold parse_gen. apply C13_dyndep_total_raw_proof; [exact Hchk|].
+  apply in_or_app. right. now left.
+Qed.
+
+(** C11 truncation, the strong form: EVERY file the parser accepts ends with a newline (so no
+    proper prefix of a valid file that ends inside a line is accepted, whatever the file). *)
+Theorem C11_accepted_ends_with_newline_proof : forall chk content stmts,
+  chk_ok chk -> ~ In 0 content -> parse_gen chk content = Ok stmts ->
+  exists c', content = c' ++ [10].
+Proof.
+  intros chk content stmts Hchk Hnn Hp.
+  pose proof (parse_gen_spec chk content Hchk) as H.
+  rewrite Hp in H. cbn [res_post] in H. destruct H as [c [rest [E [Hc Hnl]]]].
+  assert (content = c) by (eapply first_nul_unique; eauto). subst c. exact Hnl.
+Qed.
+
+(* with a NUL inside the content the lexer stops there: the part before it ends with a newline *)
+Theorem C11_accepted_ends_with_newline_nul_proof : forall chk content stmts,
+  chk_ok chk -> parse_gen chk content = Ok stmts ->
+  exists c' rest, content ++ [0] = (c' ++ [10]) ++ 0 :: rest /\ nonul c'.
+Proof.
+  intros chk content stmts Hchk Hp.
+  pose proof (parse_gen_spec chk content Hchk) as H.
+  rewrite Hp in H. cbn [res_post] in H. destruct H as [c [rest [E [Hc [c' ->]]]]].
+  exists c', rest. split; [exact E|]. intros Hin. apply Hc. apply in_or_app. now left.
+Qed.
+
+(** the defect the fix removes: a file that ends right after '|' (or after "| ") *)
+Theorem C11_truncation_after_pipe_proof : forall chk pre,
+  chk_ok chk -> ~ In 0 pre ->
+  (exists e, parse_gen chk (pre ++ [124]) = Err e) /\
+  (exists e, parse_gen chk (pre ++ [124; 32]) = Err e).
+Proof.
+  intros chk pre Hchk Hpre.
+  assert (H : forall tail, ~ In 0 tail -> (forall c', tail <> c' ++ [10]) -> tail <> [] ->
+                           exists e, parse_gen chk (pre ++ tail) = Err e).
+  { intros tail Ht Hnl Hne. destruct (parse_gen chk (pre ++ tail)) as [l|e] eqn:Hp; [|eauto]. exfalso.
+    apply C11_accepted_ends_with_newline_proof in Hp; [|exact Hchk|].
+    - destruct Hp as [c' E].
+      destruct (exists_last Hne) as [t' [x Et]]. subst tail. rewrite app_assoc in E.
+      apply app_inj_tail in E. destruct E as [_ ->]. exact (Hnl t' eq_refl).
+    - intros Hin. apply in_app_or in Hin. tauto. }
+  split; apply H.
+  - intros [H0|[]]. discriminate.
+  - intros c' E. destruct c' as [|y [|z c']]; cbn [app] in E; try discriminate; destruct c'; discriminate.
+  - discriminate.
+  - intros [H0|[H0|[]]]; discriminate.
+  - intros c' E. destruct c' as [|y [|z c']]; cbn [app] in E; try discriminate.
+    + injection E as E1 E2. discriminate.
+    + destruct c'; discriminate.
+  - discriminate.
+Qed.
